@@ -328,6 +328,34 @@ def memo_on_mutable(ctx, rule: str, modules: list[str]) -> int:
     return n
 
 
+def identity_of_values(ctx, rule: str, modules: list[str], only=None) -> int:
+    """`a is b` between two values (neither None / True / False / ... / a sentinel constant / a class): handles such as Node, ports, ops and
+    types are value objects that are freely re-created, so identity says less than the `==` the rest of the package uses"""
+    prog = ctx.program
+    n = 0
+
+    def exempt(e):
+        if isinstance(e, ast.Constant) and (e.value is None or isinstance(e.value, bool) or e.value is Ellipsis):
+            return True
+        name = e.id if isinstance(e, ast.Name) else (e.attr if isinstance(e, ast.Attribute) else None)
+        if name and (name.isupper() or name.lstrip("_")[:1].isupper()):
+            return True             # sentinel constants (_MISSING), classes and enum members
+        return isinstance(e, ast.Call) and u(e.func) in ("type", "object")
+    for mn in modules:
+        m = prog.module(mn)
+        for fn in [x for x in ast.walk(m.tree) if isinstance(x, (ast.FunctionDef, ast.AsyncFunctionDef))]:
+            if only is not None and not only(mn, "", fn.name):
+                continue
+            for c in [x for x in ast.walk(fn) if isinstance(x, ast.Compare) and any(isinstance(o, (ast.Is, ast.IsNot)) for o in x.ops)]:
+                sides = [c.left] + list(c.comparators)
+                n += 1
+                if not any(exempt(s_) for s_ in sides):
+                    ctx.fail(rule, f"{mn}.{fn.name}: identity comparison `{u(c)[:60]}`", m.path, c.lineno,
+                             f"`{u(c)}` compares object identity of two values: an equal handle / value that is another object (re-created from an "
+                             "index, taken from an iteration, copied) is treated as different", c)
+    return n
+
+
 SER = {"_to_serial", "_from_serial", "_constrain_offset", "_deserialize_offset", "_order_port_offset", "_hierarchy_order", "to_json", "load_json",
        "get_meta", "_serialize_node", "_serialize_link"}
 NOT_STORE = SER | {"resolve_extensions", "to_model", "render_dot", "store_dot"}
@@ -340,10 +368,11 @@ ANCHORS: dict[str, dict[str, set | None]] = {
     "C02": {"hugr.hugr.base": SER, "hugr._serialization.serial_hugr": ALL, "hugr._serialization.ops": ALL, "hugr._serialization.tys": ALL,
             "hugr.ops": {"_to_serial"}, "hugr.tys": {"_to_serial", "_to_serial_root", "_to_opaque"}, "hugr.val": {"_to_serial", "_to_serial_root"}},
     "C03": {"hugr.hugr.base": {"_to_serial", "_constrain_offset", "_order_port_offset", "_hierarchy_order", "to_json", "_serialize_node", "_serialize_link"},
-            "hugr.package": {"_to_serial", "to_json"}, "hugr.envelope": {"make_envelope", "make_envelope_str"}, "hugr.ext": {"_to_serial", "to_json"}},
+            "hugr.package": {"_to_serial", "to_json"}, "hugr.envelope": {"make_envelope", "make_envelope_str"}, "hugr.ext": {"_to_serial", "to_json"},
+            "hugr.ops": {"_to_serial"}},
     "C04": {"hugr.hugr.base": "STORE", "hugr.utils": ALL},
     "C05": {"hugr.hugr.base": SER, "hugr._serialization.ops": ALL, "hugr._serialization.tys": ALL, "hugr.ops": {"_to_serial", "to_custom_op"},
-            "hugr.tys": {"_to_serial", "_to_serial_root", "_to_opaque", "__eq__"}, "hugr.val": {"_to_serial", "_to_serial_root", "__eq__"}},
+            "hugr.tys": {"_to_serial", "_to_serial_root", "_to_opaque", "__eq__", "__init__"}, "hugr.val": {"_to_serial", "_to_serial_root", "__eq__", "__init__"}},
     "C06": {"hugr.ops": {"outer_signature", "inner_signature", "num_out", "port_kind", "port_type", "nth_inputs", "nth_outputs", "_function_port_offset", "_inputs",
                          "cached_signature", "_sig_port_type", "signature"}, "hugr.tys": {"flip"}},
     "C07": {"hugr.tys": {"type_bound", "_to_opaque"}, "hugr._serialization.tys": {"join"}, "hugr.std.collections.array": ALL, "hugr.std.collections.list": ALL,
@@ -393,3 +422,7 @@ def arm(ctx, prop: str | None = None) -> None:
     n3 = shared_class_state(ctx, l3, mods)
     n4 = memo_on_mutable(ctx, l3, mods)
     ctx.ok(l3, f"{prop}: classes of {len(mods)} anchor modules", f"{n3} class-level containers, {n4} memoised attributes inspected")
+    l4 = f"{prop}.L4"
+    ctx.rule(l4, "no identity comparison (`is`) between two values other than None / booleans / sentinels / classes (functions the property is about)", floor=1)
+    n5 = identity_of_values(ctx, l4, mods, only=only)
+    ctx.ok(l4, f"{prop}: identity comparisons in {len(mods)} anchor modules", f"{n5} `is` comparisons inspected")
